@@ -38,7 +38,9 @@ prop("C01",
      "created once, key switch at Finished assigning key+IV+seq of one direction (A5); direction arms are mirror images (B1); decrypt() dispatch equals the record "
      "protection of every valid (version, bulk) pair, by finite-domain guard evaluation (T4); parser/decryptor/IV-length tables agree (T3); record / handshake type "
      "constants (T4t); fail-closed gate (A4); TLS 1.3 padding strip (PAD); ClientHello/ServerHello layouts by symbolic cursor and version decision vs the enum (T10); "
-     "only decrypt results reach the payload (D1); records appended and consumed in processing order (A8, CAUS). Does not decide AEAD/CBC/RC4 arithmetic inside "
+     "only decrypt results reach the payload (D1); records appended and consumed in processing order, every packet buffered and extracted unconditionally (A8, CAUS); "
+     "framing / dedupe / full scans (FR, A9, A6a, FS); Packet field binding (PKT); key names and argument roles (T5t, B4); state ownership (D6a); builder order and "
+     "re-split (A7, T7s, B2). Does not decide AEAD/CBC/RC4 arithmetic inside "
      "the cryptography library nor MAC/padding lengths (unit tests cover those at sequence number 0).",
      ["cryptography's AEAD / CBC / ARC4 implementations"], controls=["c01-drop-seq-increment"])
 
@@ -50,7 +52,10 @@ prop("C02",
      "dissector/session with role and epoch, list positions of QuicDecryptor keys, decryptor per packet type (T5q); AAD = header in wire order per header form, nonce "
      "construction (T9a); header-protection constants (T9h); key-phase epoch rule (EPO); connection-ID matching only on non-empty IDs, CID learning (D7b); frame "
      "attributes and STREAM/CRYPTO type sets agree between registry, session and builder (A3f); direction arms mirror (B1); packet-number spaces (PNS); coalesced-"
-     "packet loop progress (A2). Does not decide header-protection / AEAD arithmetic, CRYPTO reassembly, key-phase history semantics.",
+     "packet loop progress (A2); CRYPTO reassembly per direction and space: sort by offset, consume contiguous frames, advance by length (CRY), no removal from a list "
+     "while it is iterated (ITER); TLS decryptors rebuilt only on new handshake data, Retry discards derived keys, Initial keys from the first DCID (QHS); full scans "
+     "without break/skip (FS); container kinds of instance attributes stable (KIND); QUIC key-derivation call sites (T6). Does not decide header-protection / AEAD "
+     "arithmetic nor key-phase history semantics.",
      ["cryptography's AEAD implementations; struct.unpack_from semantics"], controls=["c02-merge-without-ts"])
 
 prop("C03",
@@ -128,8 +133,8 @@ prop("C11",
      lambda tier: [checksum.rule_fold_bound, checksum.rule_pseudo_header, checksum.rule_A3_packet, checksum.rule_A6b, B2_for("checksums"), checksum.rule_udp_zero],
      "Decides: fold loop exits only with a 16-bit value and folds with >>16/&0xFFFF (FOLD); pseudo-header field order/widths for IPv4/IPv6 and "
      "checksum-field offsets TCP 16:18 / UDP 6:8 (T9c); every Packet attribute a routine reads exists in all Packet variants its call-site guard admits "
-     "(A3); dispatch dominated by the verdict, verdict True without -c (A6b); TCP/UDP twins mirror (B2). Does not decide the arithmetic identity itself "
-     "nor the UDP 0x0000/0xFFFF special case.", ["dpkt exposes ip.p / ip.nxt / tcp.sum / udp.sum as parsed"], controls=["c11-fold-off-by-one"])
+     "(A3); dispatch dominated by the verdict, verdict True without -c (A6b); TCP/UDP twins mirror (B2); a computed UDP checksum of zero is compared as 0xffff, in "
+     "the UDP routine only (UDPZ). Does not decide the arithmetic identity itself.", ["dpkt exposes ip.p / ip.nxt / tcp.sum / udp.sum as parsed"], controls=["c11-fold-off-by-one"])
 
 prop("C12",
      lambda tier: [pcapng.rule_E3, pcapng.rule_T9_pcapng, tcp.rule_full_scans],
@@ -187,5 +192,7 @@ prop("C18",
      lambda tier: [state.rule_D6_reinit, state.rule_D6_nondet, state.rule_D6_paths, state.rule_D6_ownership, state.rule_D6_outfile, output.rule_A8, state.rule_attr_kinds],
      "Decides the absence of nondeterminism sources in the code reachable from run(): no hash/id/random/time/env/cwd calls, no order-sensitive iteration "
      "over sets (D6b), no cwd-relative implicit input (D6c), every module-level mutable object run() mutates is re-initialised by run() before use (D6r), "
-     "no shared mutable class/module state in flow classes (D6a). Does not decide determinism of scapy/dpkt/cryptography internals.",
+     "reset from a fresh value and not from an alias of the mutated object (D6r), no shared mutable class/module state in flow classes (D6a), the output path is opened "
+     "truncating so nothing of an earlier run's file survives (D6o), channels append-only (A8), attribute container kinds stable (KIND). Does not decide determinism of "
+     "scapy/dpkt/cryptography internals.",
      ["scapy uses fixed IP id / no timestamps; dpkt's writer adds no host or time options"], controls=["c18-time-call"])
